@@ -23,10 +23,10 @@ from ..core.runner import Acc, guard, CaseTimeout, robust
 ID = 'C01'
 LEVEL = 'exploration'
 TECHNIQUE = 'bounded exhaustive program enumeration x all branch-outcome sequences over recording values (stateless choice-point exploration), against CPython evaluation of the same expression trees'
-RULE = ('strata S1 (term shapes: 19 names x 5 kind spellings x 9 index forms x 5 contexts + LHS uses), S2 (every binary/unary/call/ternary context over ordered '
+RULE = ('strata S1 (term shapes: 28 names x 5 kind spellings x 9 index forms x 5 contexts + LHS uses), S2 (every binary/unary/call/ternary context over ordered '
         'tuples of 13 leaves), S3 (all expression shapes up to 5 (quick) / 6 (thorough) nodes over 4 leaves), S4 (all 2-3 equation systems over 8 (quick) / 12 '
-        '(thorough) right-hand sides and every LHS ordering); each accepted program x every feasible t x every branch-outcome sequence. '
-        'non-trivial = accepted program whose evaluation writes at least one cell; distinct by script text')
+        '(thorough) right-hand sides and every LHS ordering), SV (partial verbatim fragments), SL (47 contexts kept exactly as spelled: separate bracket groups, blanks before a call bracket, no blanks round operators); each accepted program x every feasible t x every branch-outcome sequence. '
+        'plus 4 numeric vectors (the last seeds every variable at instantiation from one caller-owned array). non-trivial = accepted program whose evaluation writes at least one cell; distinct by script text')
 ASSUMPTIONS = [
     'scripts the parser rejects with its own error classes are not violations of C01 (C13/C14 judge rejections)',
     'elementary float operations, CPython operator dispatch, NumPy ufunc dispatch on objects and ast.unparse are trusted',
